@@ -128,6 +128,7 @@ func c04(c *Ctx) {
 	c.ExpectAll("aggregate/overlay-args", []string{joinS(c.CallArgs(ck, pageLoop, 2)) + " | " + joinS(c.CallArgs(ck, pageLoop, 3))}, "p1 \\| p2", 1, "pageChecksum is given the new size and the in-progress WAL overlay", "")
 	mark := p.IndexStoreOn(pat(ign))
 	c.overrideMarking("aggregate/override-marking")
+	c.truncFamily("trunc")
 	c.checksumIndexGuard("aggregate/index")
 	var keys []string
 	for _, in := range Instrs(c.F(ck), mark) {
